@@ -6,6 +6,7 @@
 //   harness sweep-workday     <part> <nparts> <tier>     engine I  calendars with <=3 special days + long holiday stretches
 //   harness sweep-cron        <part> <nparts> <tier>     engine I  three expression shapes, field values at their extremes
 //   harness fire <config> <depth>                        engine H  BFS over enable/disable/refresh/clock histories
+//   harness fire-replay <config> <op,op,...>             replay one history of a firing configuration
 //
 // Readings (DESIGN.md 1.7, quoted here next to the rules):
 //  * instants within one week + 14 h of 2^32 are excluded (no next instant exists in range); symmetrically,
@@ -16,7 +17,12 @@
 //    documented search horizon (weekly: 8 days, workday: 367 days, cron: CRON_MAX_YEARS_DIFF = 4 years).
 //  * after a wall-clock step the alarm cannot know about it until refresh()/enable(): until then only
 //    "never twice for one instant", "disabled never fires", "one-shot once" and the armed-delay rule are checked.
-//    A backward step makes the instants it re-exposes future instants again (they may legitimately fire again).
+//    A backward step makes the instants it re-exposes future instants again (they may fire again or not: both accepted).
+//    A callback that comes while the alarm is still un-refreshed after a step and BEFORE the wall clock reaches the instant
+//    (timer ran out on the monotonic clock) is not counted as that instant's callback; advances then stop where the
+//    alarm's own armed timer is due.
+//  * callbacks are attributed to the nearest matching instant (instants are >= 30 min apart in every configuration,
+//    skew <= 10 ms, wall steps <= 2 h in total).
 #include "hist/hist.h"
 #include <tbox/event/loop.h>
 #include <tbox/event/timer_event.h>
@@ -538,7 +544,7 @@ static std::vector<FireCfg> fire_cfgs() {
 
 struct Fire { int64_t wall_ms; uint32_t target; int64_t delay_ms; bool timer_on; bool running; };
 
-static int fire(const std::string &cfgname, size_t depth) {
+static int fire(const std::string &cfgname, size_t depth, const char *replay = nullptr) {
   std::vector<FireCfg> cfgs = fire_cfgs(); const FireCfg *cfgp = nullptr;
   for (auto &c : cfgs) if (cfgname == c.name) cfgp = &c;
   if (!cfgp) { printf("@VIOL sig=harness-unknown-config :: %s\n", cfgname.c_str()); return 0; }
@@ -559,7 +565,7 @@ static int fire(const std::string &cfgname, size_t depth) {
     if (l.skews < 2) m.push_back({SKEW});
     if (cfg.wall_steps && l.steps < 2) { m.push_back({WPLUS}); m.push_back({WMINUS}); }
     return m; };
-  uint64_t total_fires = 0, total_arms = 0; std::map<std::string, uint64_t> outcomes;
+  uint64_t total_fires = 0, total_arms = 0, premature = 0; std::map<std::string, uint64_t> outcomes;
   ex.run = [&](const std::vector<Op> &h, std::string &viol) -> std::string {
     Virt virt; g_wall_ms = cfg.start_ms; g_mono_ms = 5000000;
     event::Loop *loop = event::Loop::New();
@@ -600,7 +606,9 @@ static int fire(const std::string &cfgname, size_t depth) {
       int k = h[i].k;
       int64_t now_sec = fdiv(g_wall_ms, 1000);
       // the instant clock advances aim at: the reference's next matching instant after now (independent of the implementation)
+      // ... but never past the moment the alarm's own armed timer is due (they differ only after a wall-clock step): one armed instant at a time
       int64_t N = ref_next(now_sec); int64_t dist_ms = N < 0 ? DAY * 1000 : N * 1000 - g_wall_ms;
+      if (tev->is_enabled_ && !cl->timer_min_heap_.empty()) { int64_t left = (int64_t)(cl->timer_min_heap_.front()->expired - (uint64_t)g_mono_ms); if (!m_synced && left >= 0 && left < dist_ms) dist_ms = left; }
       switch (k) {
         case EN: { bool r = a.enable(); bool exp_ok = !m_enabled && N >= 0 && ref_next(std::max(now_sec, m_last_fired)) >= 0;
           if (!m_enabled) { if (r) { m_enabled = true; m_fires_since_enable = 0; m_rearmed_by = "-after-reenable"; on_armed(g_wall_ms, a.target_utc_sec_, tev->interval_.count(), "enable"); } else if (exp_ok) viol = "alarm-enable-failed although a matching instant exists"; }
@@ -632,6 +640,13 @@ static int fire(const std::string &cfgname, size_t depth) {
             int64_t att = (pv >= 0 && (nx < 0 || f.wall_ms - pv * 1000 <= nx * 1000 - f.wall_ms)) ? pv : nx;
             if (att < 0) { viol = fmt("alarm-fired-without-matching-instant at wall_ms=%" PRId64, f.wall_ms); break; }
             if (m_synced && f.wall_ms < att * 1000 - m_skew_ms) { viol = fmt("alarm-fired-before-instant at wall_ms=%" PRId64 ": nearest matching instant %" PRId64 " is still %.3f s (%.2f days) away, monotonic clock only %d ms ahead", f.wall_ms, att, (att * 1000 - f.wall_ms) / 1000.0, (att * 1000 - f.wall_ms) / 86400000.0, m_skew_ms); break; }
+            if (!m_synced && f.wall_ms < att * 1000 - m_skew_ms) {
+              // the wall clock was stepped after arming and the un-refreshed timer ran out before the wall clock reached the instant:
+              // the property is silent here.  Not counted as the callback of `att` (it may or may not fire again), only remembered.
+              m_ever_fired = std::max(m_ever_fired, att); premature++; m_fires_since_enable++;
+              if (oneshot) m_enabled = false; else if (f.running && f.timer_on) on_armed(f.wall_ms, f.target, f.delay_ms, "fire"); else m_enabled = false;
+              if (!viol.empty()) break;
+              continue; }
             if (m_fired.count(att)) { viol = fmt("alarm-double-fire-same-instant%s instant=%" PRId64 " second callback at wall_ms=%" PRId64 " (monotonic ahead by %d ms)", m_rearmed_by, att, f.wall_ms, m_skew_ms); break; }
             m_rearmed_by = "";
             m_fired.insert(att); m_last_fired = std::max(m_last_fired, att); m_ever_fired = std::max(m_ever_fired, att); m_fires_since_enable++;
@@ -650,19 +665,25 @@ static int fire(const std::string &cfgname, size_t depth) {
       if (m_enabled && (int64_t)a.remainSeconds() != (int64_t)a.target_utc_sec_ - fdiv(g_wall_ms, 1000) && (int64_t)a.target_utc_sec_ >= fdiv(g_wall_ms, 1000)) { viol = "alarm-remainSeconds-mismatch"; break; }
     }
     Lim l = limits(h);
-    std::string canon = fmt("w%" PRId64 " m%" PRId64 " st%d tg%u te%d iv%" PRId64 " hp%zu ex%" PRId64 " | en%d sy%d lf%" PRId64 " pe%" PRId64 " nf%zu fe%d sk%d | %d%d%d",
+    std::string canon = fmt("w%" PRId64 " m%" PRId64 " st%d tg%u te%d iv%" PRId64 " hp%zu ex%" PRId64 " | en%d sy%d lf%" PRId64 " ef%" PRId64 " rb%zu pe%" PRId64 " nf%zu fe%d sk%d | %d%d%d",
                             g_wall_ms, g_mono_ms - g_wall_ms, (int)a.state_, a.target_utc_sec_, (int)tev->is_enabled_, tev->is_enabled_ ? (int64_t)tev->interval_.count() : -1, cl->timer_min_heap_.size(),
                             cl->timer_min_heap_.empty() ? -1 : (int64_t)(cl->timer_min_heap_.front()->expired - (uint64_t)g_mono_ms),
-                            (int)m_enabled, (int)m_synced, m_last_fired * 100 + (m_ever_fired != m_last_fired) * 50 + (int64_t)strlen(m_rearmed_by), m_pending, m_fired.size(), m_fires_since_enable, m_skew_ms, l.skews, l.steps, (int)l.need_pass);
+                            (int)m_enabled, (int)m_synced, m_last_fired, m_ever_fired, strlen(m_rearmed_by), m_pending, m_fired.size(), m_fires_since_enable, m_skew_ms, l.skews, l.steps, (int)l.need_pass);
     if (viol.empty()) { std::string o = fmt("callbacks=%zu enabled=%d synced=%d", m_fired.size(), (int)m_enabled, (int)m_synced); outcomes[o]++; }
     if (a.isEnabled()) a.disable();
     loop->runNext([] {}); loop->runLoop(event::Loop::Mode::kOnce);
     ap.reset(); delete loop; ::alarm(0);
     return canon;
   };
+  if (replay) {   // fire-replay <config> <op,op,...>: evaluate one history, print the violation (if any) and the canonical state
+    std::vector<Op> h; std::string r = replay, tok;
+    for (size_t i = 0; i <= r.size(); i++) { if (i == r.size() || r[i] == ',' || r[i] == ' ') { for (int k = 0; k < NOPS; k++) if (tok == kOpNames[k]) h.push_back({k}); tok.clear(); } else tok.push_back(r[i]); }
+    std::string v; std::string c = ex.run(h, v);
+    printf("history: %s\nviolation: %s\nstate: %s\n", ex.hist_str(h).c_str(), v.empty() ? "(none)" : v.c_str(), c.c_str()); return 0;
+  }
   ex.explore(depth);
   for (auto &o : outcomes) printf("@OUTCOME %s: %s\n", cfg.name, o.first.c_str());
-  printf("@STAT callbacks_observed=%" PRIu64 " armings_checked=%" PRIu64 "\n", total_fires, total_arms);
+  printf("@STAT callbacks_observed=%" PRIu64 " armings_checked=%" PRIu64 " premature_callbacks_after_wall_step=%" PRIu64 "\n", total_fires, total_arms, premature);
   return 0;
 }
 
@@ -673,6 +694,7 @@ int main(int argc, char **argv) {
   setvbuf(stdout, nullptr, _IOLBF, 0);
 #ifndef C20_ONLY_SWEEP
   if (mode == "fire") return fire(argc > 2 ? argv[2] : "", argc > 3 ? (size_t)atoi(argv[3]) : 6);
+  if (mode == "fire-replay") return fire(argc > 2 ? argv[2] : "", 0, argc > 3 ? argv[3] : "");
   if (mode == "list-fire") { for (auto &c : fire_cfgs()) printf("%s\n", c.name); return 0; }
 #endif
 #ifndef C20_ONLY_FIRE
